@@ -4,7 +4,8 @@ Decides structural clauses only (see DESIGN.md section 5, C09)."""
 from __future__ import annotations
 
 from sa.guards import CountResolver
-from . import lib_guards, lib_module, lib_gate
+from sa.cfront import LIB_TUS
+from . import lib_guards, lib_module, lib_gate, lib_err
 
 LEVEL = "other"
 EXPLANATION = ("Static analysis of /repo's current C and Python source (clang type-checked AST, Python ast): "
@@ -20,6 +21,8 @@ def run(ctx):
     lib_guards.presence(ctx, seen)
     lib_module.narrowing(ctx, P)
     lib_gate.gate(ctx, P)
+    E = lib_err.discipline(ctx, P, LIB_TUS + ["module"])
+    lib_err.module_handlers(ctx, P, E)
     ctx.assumptions += [
         "clang-14's AST reflects the code that setup.py compiles (same include paths, -std=c99)",
         "libc and CPython API functions behave as documented",
